@@ -1,12 +1,12 @@
 package tmpl
 
 import (
-	"go/constant"
-	"regexp"
 	"fmt"
 	"go/ast"
+	"go/constant"
 	"go/token"
 	"go/types"
+	"regexp"
 	"sort"
 	"strconv"
 	"strings"
@@ -1002,22 +1002,81 @@ func RunFlow(c *core.Ctx) {
 	})
 	okUnknown := false
 	if ff != nil {
+		// findFeatures itself or a function of the package it calls (one level): a failed map lookup (`!ok`) leads to
+		// an error built by fmt.Errorf that leaves the function (return) or, after helper normalisation, the inlined body
+		bodies := []*ast.BlockStmt{ff.Body}
 		ast.Inspect(ff.Body, func(x ast.Node) bool {
-			is, ok := x.(*ast.IfStmt)
-			if !ok {
-				return true
-			}
-			if ue, ok := is.Cond.(*ast.UnaryExpr); ok && ue.Op == token.NOT && types.ExprString(ue.X) == "ok" {
-				if len(is.Body.List) == 1 {
-					if rs, ok := is.Body.List[0].(*ast.ReturnStmt); ok && len(rs.Results) == 2 && types.ExprString(rs.Results[0]) == "nil" {
-						if call, ok := rs.Results[1].(*ast.CallExpr); ok && core.QualName(core.CalleeObj(genp.TypesInfo, call)) == "fmt.Errorf" {
-							okUnknown = true
+			if call, ok := x.(*ast.CallExpr); ok {
+				if f, ok := core.CalleeObj(genp.TypesInfo, call).(*types.Func); ok && f.Pkg() == genp.Types {
+					eachFunc(genp, func(fd *ast.FuncDecl) {
+						if genp.TypesInfo.Defs[fd.Name] == types.Object(f) && fd.Body != nil {
+							bodies = append(bodies, fd.Body)
 						}
-					}
+					})
 				}
 			}
 			return true
 		})
+		for _, body := range bodies {
+			ast.Inspect(body, func(x ast.Node) bool {
+				is, ok := x.(*ast.IfStmt)
+				if !ok {
+					return true
+				}
+				ue, ok := is.Cond.(*ast.UnaryExpr)
+				if !ok || ue.Op != token.NOT || len(is.Body.List) == 0 {
+					return true
+				}
+				// the negated value is the comma-ok of a map lookup
+				okID, isID := ast.Unparen(ue.X).(*ast.Ident)
+				if !isID {
+					return true
+				}
+				fromLookup := false
+				check := func(as *ast.AssignStmt) {
+					if as != nil && len(as.Lhs) == 2 && len(as.Rhs) == 1 {
+						if l, ok := as.Lhs[1].(*ast.Ident); ok && genp.TypesInfo.ObjectOf(l) == genp.TypesInfo.ObjectOf(okID) {
+							if _, isIdx := ast.Unparen(as.Rhs[0]).(*ast.IndexExpr); isIdx {
+								fromLookup = true
+							}
+						}
+					}
+				}
+				if as, ok := is.Init.(*ast.AssignStmt); ok {
+					check(as)
+				}
+				ast.Inspect(body, func(y ast.Node) bool {
+					if as, ok := y.(*ast.AssignStmt); ok {
+						check(as)
+					}
+					return true
+				})
+				if !fromLookup {
+					return true
+				}
+				hasErrorf, leaves := false, false
+				ast.Inspect(is.Body, func(y ast.Node) bool {
+					if call, ok := y.(*ast.CallExpr); ok && core.QualName(core.CalleeObj(genp.TypesInfo, call)) == "fmt.Errorf" {
+						hasErrorf = true
+					}
+					return true
+				})
+				last := is.Body.List[len(is.Body.List)-1]
+				if blk, ok := last.(*ast.BlockStmt); ok && len(blk.List) > 0 {
+					last = blk.List[len(blk.List)-1]
+				}
+				switch t := last.(type) {
+				case *ast.ReturnStmt:
+					leaves = true
+				case *ast.BranchStmt:
+					leaves = t.Tok == token.BREAK && t.Label != nil
+				}
+				if hasErrorf && leaves {
+					okUnknown = true
+				}
+				return true
+			})
+		}
 	}
 	c.Check(okUnknown, "T.flow", "generator.findFeatures unknown feature", "an unknown feature name returns an error", "unknown feature names do not produce an error", "", src)
 }
